@@ -23,14 +23,8 @@ MAX_EVENTS = int(os.environ.get("VERIF_REC_MAX", "6000"))
 
 
 def _texts(obj):
-    from statham.serializers import serialize_json, serialize_python
-    out = []
-    for f in (repr, lambda o: json.dumps(serialize_json(o), sort_keys=True, default=repr), serialize_python):
-        try:
-            out.append(f(obj))
-        except Exception as exc:  # noqa
-            out.append("!" + type(exc).__name__)
-    return out
+    from checks_heap import _texts as limited_texts
+    return limited_texts(obj)
 
 
 def _is_json(v, d=0):
